@@ -18,9 +18,6 @@ def main():
         sh = os.path.join(a.replay, 'run.sh')
         print(open(os.path.join(a.replay, 'counterexample.json')).read())
         sys.exit(subprocess.call(['sh', sh]))
-    if a.prop == 'validate':
-        from . import validate
-        sys.exit(validate.main(a.tier, seed))
     modname = PROPS[a.prop]
     P = importlib.import_module(modname)
     if hasattr(P, 'main'):
